@@ -698,7 +698,9 @@ int verif_execvp(const char *file, char *const argv[])
   os_call();
   V_ASSERT("C12/os.exec.child_only", g.in_child);
   /* reachability probe: must FAIL in the harnesses that list it (spec must_fail) */
+#ifndef VERIF_NO_CANARY
   __CPROVER_assert(0, "reach/exec");
+#endif
 
   V_ASSERT("C10/exec.stdin_is_requested_object",
            IS_OPEN(0) && g.fds.obj[0] == gc.want_obj[0]);
@@ -722,7 +724,7 @@ int verif_execvp(const char *file, char *const argv[])
     uint32_t keep = 7u | MASK_OF(exit_fd);
     V_ASSERT("C11/exec.nothing_else_inherited",
              (g.fds.open & ~g.fds.cloexec & ~keep) == 0);
-    V_ASSERT("C01+C08+C09+C11/exec.exit_handle_inherited",
+    V_ASSERT("C01+C07+C08+C09+C11+C15/exec.exit_handle_inherited",
              IS_OPEN(exit_fd) && exit_fd > 2 && (g.fds.cloexec & BIT(exit_fd)) == 0 &&
                  g.fds.obj[exit_fd] == gc.want_exit_obj);
   }
@@ -761,7 +763,9 @@ int verif_execvp(const char *file, char *const argv[])
 void verif__exit(int code)
 {
   os_call();
+#ifndef VERIF_NO_CANARY
   __CPROVER_assert(0, "reach/_exit");
+#endif
   V_ASSERT("C12/os._exit.child_only", g.in_child);
   /* C04: a child that gives up before exec tells the parent why, once, with a
      positive errno — the cause of the first failure */
